@@ -4,17 +4,9 @@
 //!   dv replay <file> [--quiet]
 //!   dv gen <ID> [--n N]            print generated cases (debugging the generators)
 
-mod case;
-mod gen;
-mod interp;
-mod norm;
-mod oracle;
-mod profiles;
-mod sched;
-mod world;
-
-use case::*;
-use interp::{run_case, Outcome, RunOpts};
+use dv::case::*;
+use dv::interp::{run_case, Outcome, RunOpts};
+use dv::{gen, norm, profiles, world};
 use proptest::strategy::{Strategy, ValueTree};
 use proptest::test_runner::{Config, RngAlgorithm, RngSeed, TestCaseError, TestError, TestRng, TestRunner};
 use serde::{Deserialize, Serialize};
@@ -591,6 +583,10 @@ fn main() {
             cmd_check(&id, &tier, get("--cases").and_then(|s| s.parse().ok()), workers, has("--strict-harness"), get("--oracle"))
         }
         Some("replay") => cmd_replay(args.get(2).map(|s| s.as_str()).unwrap_or(""), has("--quiet")),
+        Some("entropy") => {
+            measure_entropy(args.get(2).map(|s| s.as_str()).unwrap_or("C01"), 2000);
+            0
+        }
         Some("gen") => {
             cmd_gen(args.get(2).map(|s| s.as_str()).unwrap_or("C01"), get("--n").and_then(|s| s.parse().ok()).unwrap_or(5));
             0
@@ -601,4 +597,21 @@ fn main() {
         }
     };
     std::process::exit(code);
+}
+
+#[allow(dead_code)]
+pub fn measure_entropy(id: &str, n: usize) {
+    let prof = profiles::profile(id);
+    let strat = gen::case_strategy(&prof);
+    let mut max = 0;
+    let mut total = 0;
+    for i in 0..n {
+        let rng = TestRng::from_seed(RngAlgorithm::Recorder, &mix(7, i as u64));
+        let mut runner = TestRunner::new_with_rng(Config::default(), rng);
+        let _ = strat.new_tree(&mut runner).unwrap().current();
+        let used = runner.bytes_used().len();
+        max = max.max(used);
+        total += used;
+    }
+    println!("{}: entropy per case: mean {} bytes, max {} bytes over {} cases", id, total / n, max, n);
 }
